@@ -226,11 +226,13 @@ def guard_kinds(repo, ci, fn, keyp, depth=2):
             else:
                 kinds.add("root-raw")
     if depth > 0:
+        # calls of a guarding helper on the key: the *set* of such calls must cut every path to a key-dependent return
+        # (one call per branch after a refactor is as good as one call before the branches); the kinds are those all calls provide
+        per_call = []
         for c in calls_in(fn):
             if call_recv(c) == "self" and c.args and names_of(c.args[0]) & derived:
                 dc, h = ci.find_method(call_tail(c))
                 if h is not None and h is not fn:
-                    # the helper call must dominate every key-dependent return
                     hk = guard_kinds(repo, ci, h, params(h)[1], depth - 1)
                     if "root" in hk:
                         ar = kwarg(c, "allow_root")
@@ -238,11 +240,15 @@ def guard_kinds(repo, ci, fn, keyp, depth=2):
                         allow = ar if ar is not None else d.get("allow_root")
                         if not (isinstance(allow, ast.Constant) and allow.value is False):
                             hk = hk - {"root"}
-                    cn = cfg.node_of(c)
-                    rets = [x for x in cfg.returns() if keyp in {y.id for y in ast.walk(cfg.nodes[x].ast) if isinstance(y, ast.Name)}
-                            or any(v in derived for v in {y.id for y in ast.walk(cfg.nodes[x].ast) if isinstance(y, ast.Name)})]
-                    if rets and all(cfg.dominates(cn, x) for x in rets):
-                        kinds |= hk
+                    if hk:
+                        per_call.append((cfg.node_of(c), hk))
+        if per_call:
+            rets = [x for x in cfg.returns() if keyp in {y.id for y in ast.walk(cfg.nodes[x].ast) if isinstance(y, ast.Name)}
+                    or any(v in derived for v in {y.id for y in ast.walk(cfg.nodes[x].ast) if isinstance(y, ast.Name)})]
+            for kind in set().union(*[hk for _, hk in per_call]):
+                nodes = [n for n, hk in per_call if kind in hk]
+                if rets and all(cfg.set_dominates(nodes, x) for x in rets):
+                    kinds.add(kind)
     return kinds
 
 
